@@ -91,8 +91,8 @@ func dumpSlash(c *Chain) []string {
 				}
 				eor = strings.Join(os, "+")
 			}
-			es = append(es, fmt.Sprintf("%d:%d:%d:%s:%s:%s:%d:%d:%v:%s:%s:%s:%d", d.DisputeId, d.DisputeStatus, d.DisputeCategory, d.SlashAmount, d.FeeTotal, rep,
-				d.InitialEvidence.Power, d.InitialEvidence.BlockNumber, d.Open, etot, eor, short(d.InitialEvidence.QueryId), d.DisputeRound))
+			es = append(es, fmt.Sprintf("%d:%d:%d:%s:%s:%s:%d:%d:%v:%s:%s:%s:%d:%d", d.DisputeId, d.DisputeStatus, d.DisputeCategory, d.SlashAmount, d.FeeTotal, rep,
+				d.InitialEvidence.Power, d.InitialEvidence.BlockNumber, d.Open, etot, eor, short(d.InitialEvidence.QueryId), d.DisputeRound, d.DisputeStartTime.UnixMilli()))
 		}
 		it.Close()
 	}
@@ -228,6 +228,16 @@ func genSlashHist(r *Rng, i int, tier string) []string {
 		case 11:
 			if ndisp > 0 {
 				tx("addfee %s %d %d %d", r.PickS("a4", "a5", "v1"), 1+r.Intn(ndisp), r.Pick(1e12, 1000, 5000), r.Pick(0, 0, 1))
+			}
+			if nrep > 0 && r.Chance(1, 3) { // partial payments around the one-day deadline, completion after it
+				tx("disp a4 R%d %d %d 0", r.Intn(nrep+1), 1+r.Intn(3), r.Pick(1000, 5000))
+				ndisp++
+				add("blk %d", r.Pick(12*3600000, 23*3600000))
+				tx("addfee a5 %d %d 0", ndisp, r.Pick(1000, 3000))
+				tx("addfee a5 %d %d 0", ndisp-1, r.Pick(1000, 3000))
+				add("blk %d", r.Pick(13*3600000, 2*3600000, 26*3600000))
+				tx("addfee a4 %d 1000000000000 0", ndisp)
+				tx("addfee a4 %d 1000000000000 0", ndisp-1)
 			}
 		case 12:
 			tx("unjail %s", reps[r.Intn(4)])
